@@ -2,6 +2,9 @@
 """Writes MANIFEST.json. The list DONE names the properties whose checks exist."""
 import json, subprocess
 DONE = {
+ "C16": ("exploration", "child-process crash monitor: exit status of each list operation on a fixed-size thread stack; minimal-stack bisection n=10^3 vs 10^6",
+         "36 list-walking operations of the public API (parse, next_datum, print, Display, to_vec family, iterators, get/index, predicates, clone, ==, drop, Datum clone/==/drop/walk/into-value, serde to_value/from_value/to_string/from_str), on proper and dotted lists built by constructors, parser and Serde, each run in its own child process of the hook-free release and dev builds on a 2 MiB thread with 10^6 (thorough: also 4x10^6) elements; the exit status (normal / SIGSEGV / SIGABRT 'has overflowed its stack') is the observation. Thorough bisects the minimal stack for 10^3 elements and requires 10^6 elements to fit in that + 32 KiB.",
+         "trusted: exit-status interpretation; results are specific to this toolchain's frame sizes, the verdict only needs 'does not grow with n'", "4/C16"),
  "C04": ("exploration", "Rust-side equality monitor over a 46-type Serde family through four serialization routes",
          "Each of 46 concrete types (every Serde data-model category plus the shape-ambiguous nestings) has a recursive generator; values go through to_value/from_value (NaN and infinities included, compared by bits) and through text with the default printer/parser via str, bytes and writer/reader (finite floats, C05 rule) and must come back equal on the Rust side.",
          "trusted: serde_derive; per-type equality functions", "4/C04"),
